@@ -688,30 +688,42 @@ def pushParams : List Param → M Unit
     pushAddr a
     pushParams ps
 
+/-- the typed binary handlers (`vm_execute_op_<op>_<type>`): operands at sp-1 and sp, result replaces sp-1 -/
+def execBin (ty : NTy) (bop : BinOp) : M Unit := do
+  let sp ← getSp
+  let a ← scalarOf ty (← rdAddr (sp - 1))
+  let b ← scalarOf ty (← rdAddr sp)
+  match (← resOf (bin ty bop a b)) with
+  | none => pure ()
+  | some v =>
+    let addr ← alloc v.toObj
+    wrSlot (sp - 1) (.addr addr)
+    setSp (sp - 1)
+
+/-- the typed unary handlers: operand and result at sp -/
+def execUn (ty : NTy) (uop : UnOp) : M Unit := do
+  let sp ← getSp
+  let a ← scalarOf ty (← rdAddr sp)
+  match (← resOf (un ty uop a)) with
+  | none => pure ()
+  | some v => wrSlot sp (.addr (← alloc v.toObj))
+
+/-- the twelve conversions: operand and result at sp -/
+def execConv (src dst : NTy) : M Unit := do
+  let sp ← getSp
+  let a ← scalarOf src (← rdAddr sp)
+  match (← resOf (conv src dst a)) with
+  | none => pure ()
+  | some v => wrSlot sp (.addr (← alloc v.toObj))
+
 /-- the handler of one instruction (`vm_execute_op[bc->type].execute`) -/
 def exec (md : Module) (ins : Instr) (orc : Oracle) : M Unit := do
   let op := ins.op
   let sp ← getSp
   -- generic families first
-  if let some (ty, bop) := binOpOf op then
-    let a ← scalarOf ty (← rdAddr (sp - 1))
-    let b ← scalarOf ty (← rdAddr sp)
-    match (← resOf (bin ty bop a b)) with
-    | none => pure ()
-    | some v =>
-      let addr ← alloc v.toObj
-      wrSlot (sp - 1) (.addr addr)
-      setSp (sp - 1)
-  else if let some (ty, uop) := unOpOf op then
-    let a ← scalarOf ty (← rdAddr sp)
-    match (← resOf (un ty uop a)) with
-    | none => pure ()
-    | some v => wrSlot sp (.addr (← alloc v.toObj))
-  else if let some (src, dst) := convOf op then
-    let a ← scalarOf src (← rdAddr sp)
-    match (← resOf (conv src dst a)) with
-    | none => pure ()
-    | some v => wrSlot sp (.addr (← alloc v.toObj))
+  if let some (ty, bop) := binOpOf op then execBin ty bop
+  else if let some (ty, uop) := unOpOf op then execUn ty uop
+  else if let some (src, dst) := convOf op then execConv src dst
   else if let some (kind, nilLeft, negated) := nilCmpOf op then
     let (nilSlot, valSlot) := if nilLeft then (sp - 1, sp) else (sp, sp - 1)
     -- the handlers read the typed side first when it is at sp-1, the nil side first otherwise
